@@ -10,6 +10,7 @@ Mechanisms under contract (DESIGN section 5, C03):
                                  INV1  refs[n] defined here      =>  refs[n] == "l_<level>_<n>"
                                  INV2  refs[n] defined here      =>  refs[n] is a key of loads here or of an ancestor
                                  INV3  level == parent.level + 1 unless given (Symbols.__init__)
+                                 INV4  n in stores               =>  refs[n] defined here
   C03.symbols.no_alias.*       string lemma on the identifier built by the real _define_ref: (level, name) -> ident is injective
                                and never a compiler-internal name; every literal identifier in every emission schema is not of
                                the form l_<digit>...
@@ -219,13 +220,15 @@ class Tab:
     def anc_load_known(self, t):
         return self.plhas(t) if self.with_parent else z3.BoolVal(False)
 
-    def inv_at(self, n, rdom=None, rval=None, ldom=None, L=None):
+    def inv_at(self, n, rdom=None, rval=None, ldom=None, L=None, sdom=None):
         rdom = self.rdom if rdom is None else rdom
         rval = self.rval if rval is None else rval
         ldom = self.ldom if ldom is None else ldom
+        sdom = self.sdom if sdom is None else sdom
         L = self.L if L is None else L
         r = z3.Select(rval, n)
-        return z3.Implies(z3.Select(rdom, n), z3.And(r == ident(L, n), z3.Or(z3.Select(ldom, r), self.anc_load_known(r))))
+        return z3.And(z3.Implies(z3.Select(rdom, n), z3.And(r == ident(L, n), z3.Or(z3.Select(ldom, r), self.anc_load_known(r)))),
+                      z3.Implies(z3.Select(sdom, n), z3.Select(rdom, n)))  # INV4: a stored name has a ref in this table
 
     def anc_inv_at(self, n):
         """the ancestors satisfy INV: what they know is named l_<their level>_<n> with a level below ours, and has a load"""
@@ -357,7 +360,7 @@ class SymVC(VC):
             return None
         t = self.tab
         rd, rv, sd, ld, lk, lh, lp = t.post(out.st)
-        return z3.And(t.fields_kept(out.st), t.inv_at(self.q, rd, rv, ld))
+        return z3.And(t.fields_kept(out.st), t.inv_at(self.q, rd, rv, ld, sdom=sd))
 
     def concretize(self, model, pre, out):
         t = self.tab
@@ -441,6 +444,12 @@ class Store(SymVC):
             z3.Implies(z3.Not(t.pknown(n)), z3.And(z3.Select(ld, new), z3.Select(lk, new) == z3.StringVal(UNDEF), z3.Not(z3.Select(lh, new))))))
 
     posts = [("returns_none", p_returns), ("view", p_view), ("preserves_INV", SymVC.p_inv), ("store_local", p_local)]
+
+
+def eq_on(a, b, dom):
+    """arrays a and b agree on every key of dom"""
+    k = z3.Const(fresh_name("ek"), S_)
+    return z3.ForAll([k], z3.Implies(z3.Select(dom, k), z3.Select(a, k) == z3.Select(b, k)))
 
 
 def eq_except(a, b, dom, n):
@@ -633,7 +642,7 @@ class Copy(SymVC):
                 return False  # shares a table with the source
         rd, rv = dict_terms(st, f["refs"])
         sd = set_terms(st, f["stores"])
-        return z3.And(to_term(f["level"], "int") == t.L, rd == t.rdom, eq_except(rv, t.rval, rd, z3.StringVal("\0")), sd == t.sdom,
+        return z3.And(to_term(f["level"], "int") == t.L, rd == t.rdom, eq_on(rv, t.rval, rd), sd == t.sdom,
                       loads_equal(loads_terms(st, f["loads"]), (t.ldom, t.lkind, t.lhas, t.lparam)))
 
     def p_src(self, pre, out):
@@ -837,6 +846,232 @@ def replay_symbols(w):
     return (bool(problems), "; ".join(problems[:2]) or f"Symbols.{m} agrees with the reference semantics on the witness family")
 
 
+# ------------------------------------------------------------------ C03.frames : compiler.Frame
+
+FRAME_FLAGS = ("toplevel", "rootlevel", "loop_frame", "block_frame", "soft_frame")
+FRAME_FIELDS = {"eval_ctx", "parent", "symbols", "require_output_check", "buffer", "block"} | set(FRAME_FLAGS)
+
+
+class FrameVC(VC):
+    """An arbitrary Frame: arbitrary flags / buffer / block, its symbol table an arbitrary Tab."""
+    prop = "C03"
+    method = ""
+
+    def __init__(self, name_suffix=""):
+        self.target = f"jinja2.compiler:Frame.{self.method}"
+        super().__init__("C03", f"C03.frames.{self.method}{name_suffix}")
+
+    def configure(self, I):
+        install_loads(I)
+        install_object_new(I)
+        I.inline.update({"jinja2.idtracking:Symbols.__init__", "jinja2.idtracking:Symbols.copy", "jinja2.compiler:Frame.__init__",
+                         "jinja2.compiler:Frame.copy"})
+
+    def make_frame(self, st, tag="frame"):
+        self.tab = Tab(st, True, tag + "_symbols")
+        st.assume(*typed_not_none())
+        self.flags = {k: sym(f"{tag}.{k}", "bool") for k in FRAME_FLAGS + ("require_output_check",)}
+        self.buffer, self.block = sym(f"{tag}.buffer", "obj"), sym(f"{tag}.block", "obj")
+        self.eval_ctx = A.obj(st, N.EvalContext, "eval_ctx")
+        self.outer = A.obj(st, C.Frame, "outer_frame")
+        fields = {"eval_ctx": self.eval_ctx, "parent": self.outer, "symbols": self.tab.ref, "buffer": self.buffer, "block": self.block}
+        fields.update(self.flags)
+        self.frame = st.alloc(HObj(C.Frame, fields=fields, path=tag), initial=True)
+        return self.frame
+
+    def setup(self, I, st):
+        return [self.make_frame(st)], {}
+
+    def source_untouched(self, st):
+        ids = {self.frame.id, self.tab.ref.id, self.tab.refs.id, self.tab.loads.id, self.tab.stores.id, self.eval_ctx.id, self.outer.id}
+        if self.tab.parent is not None:
+            ids.add(self.tab.parent.id)
+        if any(i in ids for (i, _f) in st.written):
+            return False
+        return unchanged(self.tab, st)
+
+    def new_frame_ok(self, st, r):
+        return isinstance(r, Ref) and r != self.frame and r.id in st.allocated and st.get(r).cls is C.Frame and set(st.get(r).fields) == FRAME_FIELDS
+
+    def table_is_fresh_child(self, st, sref, parent_ref, level_term):
+        """sref is a freshly allocated EMPTY table with the given parent and level"""
+        if not (isinstance(sref, Ref) and sref.id in st.allocated):
+            return False
+        f = st.get(sref).fields
+        if set(f) != {"level", "parent", "refs", "loads", "stores"}:
+            return False
+        if (f["parent"] != parent_ref) if parent_ref is not None else (f["parent"] is not None):
+            return False
+        refs, loads, stores = (st.get(f[k]) if isinstance(f[k], Ref) else None for k in ("refs", "loads", "stores"))
+        if not (isinstance(refs, HDict) and refs.concrete and not refs.items and isinstance(loads, HDict) and loads.concrete and not loads.items
+                and isinstance(stores, HSet) and stores.items == []):
+            return False
+        return to_term(f["level"], "int") == level_term
+
+    def concretize(self, model, pre, out):
+        return {"method": self.method}
+
+    def replay(self, w):
+        return replay_frames(w)
+
+
+class FrameInner(FrameVC):
+    """inner(): a NEW frame whose table is an empty child of this frame's table, one level deeper; buffer / block / output check
+    inherited, every scope flag cleared.  inner(isolated=True): a fresh chain (no parent frame, no parent table) one level deeper."""
+    method = "inner"
+
+    def __init__(self, isolated):
+        self.isolated = isolated
+        super().__init__("[isolated]" if isolated else "")
+
+    def setup(self, I, st):
+        return [self.make_frame(st)], ({"isolated": True} if self.isolated else {})
+
+    def p_child(self, pre, out):
+        if out.raised or not self.new_frame_ok(out.st, out.value):
+            return False
+        st, f = out.st, out.st.get(out.value).fields
+        if f["eval_ctx"] != self.eval_ctx:
+            return False
+        if any(f[k] is not False for k in FRAME_FLAGS):
+            return False
+        if self.isolated:
+            if f["parent"] is not None or f["buffer"] is not None or f["block"] is not None or f["require_output_check"] is not False:
+                return False
+            return self.table_is_fresh_child(st, f["symbols"], None, self.tab.L + 1)
+        if f["parent"] != self.frame or f["buffer"] is not self.buffer or f["block"] is not self.block or f["require_output_check"] is not self.flags["require_output_check"]:
+            return False
+        return self.table_is_fresh_child(st, f["symbols"], self.tab.ref, self.tab.L + 1)
+
+    def p_src(self, pre, out):
+        return self.source_untouched(out.st)
+
+    posts = [("fresh_child_one_level_deeper", p_child), ("source_untouched", p_src)]
+
+
+class FrameCopy(FrameVC):
+    """copy() / soft(): a NEW frame with the same fields whose table is a COPY (same level and parent, equal but unshared
+    tables); soft() additionally clears rootlevel and sets soft_frame - `if` shares the enclosing scope's level and names."""
+
+    def __init__(self, method):
+        self.method = method
+        super().__init__()
+
+    def p_copy(self, pre, out):
+        if out.raised or not self.new_frame_ok(out.st, out.value):
+            return False
+        st, f = out.st, out.st.get(out.value).fields
+        t = self.tab
+        want = dict(self.flags)
+        if self.method == "soft":
+            want["rootlevel"], want["soft_frame"] = False, True
+        for k, v in want.items():
+            if f[k] is not v:
+                return False
+        if f["eval_ctx"] != self.eval_ctx or f["parent"] != self.outer or f["buffer"] is not self.buffer or f["block"] is not self.block:
+            return False
+        sref = f["symbols"]
+        if not isinstance(sref, Ref) or sref == t.ref or sref.id not in st.allocated:
+            return False  # shares the symbol table with the enclosing frame
+        sf = st.get(sref).fields
+        if st.get(sref).cls is not IDT.Symbols or set(sf) != {"level", "parent", "refs", "loads", "stores"} or sf["parent"] != t.parent:
+            return False
+        for k, src in (("refs", t.refs), ("loads", t.loads), ("stores", t.stores)):
+            if not isinstance(sf[k], Ref) or sf[k] == src or sf[k].id not in st.allocated:
+                return False
+        rd, rv = dict_terms(st, sf["refs"])
+        return z3.And(to_term(sf["level"], "int") == t.L, rd == t.rdom, eq_on(rv, t.rval, rd), set_terms(st, sf["stores"]) == t.sdom,
+                      loads_equal(loads_terms(st, sf["loads"]), (t.ldom, t.lkind, t.lhas, t.lparam)))
+
+    def p_src(self, pre, out):
+        return self.source_untouched(out.st)
+
+    posts = [("fresh_frame_with_copied_table", p_copy), ("source_untouched", p_src)]
+
+
+class FrameInit(VC):
+    """Frame(eval_ctx, parent, level): root frame = fresh root table at `level`, no buffer / block / output check; child frame = empty
+    child table of the parent's, inheriting buffer / block / output check; every scope flag False."""
+    prop = "C03"
+    target = "jinja2.compiler:Frame.__init__"
+
+    def __init__(self, with_parent):
+        self.with_parent = with_parent
+        super().__init__("C03", f"C03.frames.__init__[{'child' if with_parent else 'root'}]")
+
+    def configure(self, I):
+        I.inline.update({"jinja2.idtracking:Symbols.__init__"})
+
+    def setup(self, I, st):
+        st.assume(*typed_not_none())
+        self.obj = st.alloc(HObj(C.Frame), initial=True)
+        self.eval_ctx = A.obj(st, N.EvalContext, "eval_ctx")
+        self.PL = z3.Int("parent_table_level")
+        self.lv = sym("level", "int")
+        self.parent = None
+        if self.with_parent:
+            self.ptab = st.alloc(HObj(IDT.Symbols, fields={"level": Sym(self.PL, "int")}, path="parent.symbols"), initial=True)
+            self.roc, self.buffer, self.block = sym("parent.require_output_check", "bool"), sym("parent.buffer", "obj"), sym("parent.block", "obj")
+            self.parent = st.alloc(HObj(C.Frame, fields={"symbols": self.ptab, "require_output_check": self.roc, "buffer": self.buffer,
+                                                         "block": self.block}, path="parent"), initial=True)
+            return [self.obj, self.eval_ctx, self.parent], {}
+        return [self.obj, self.eval_ctx, None, self.lv], {}
+
+    def p_post(self, pre, out):
+        if out.raised:
+            return False
+        st, f = out.st, out.st.get(self.obj).fields
+        if set(f) != FRAME_FIELDS or f["eval_ctx"] != self.eval_ctx or any(f[k] is not False for k in FRAME_FLAGS):
+            return False
+        helper = FrameVC.table_is_fresh_child
+        if self.with_parent:
+            if f["parent"] != self.parent or f["buffer"] is not self.buffer or f["block"] is not self.block or f["require_output_check"] is not self.roc:
+                return False
+            if any(i in (self.parent.id, self.ptab.id) for (i, _x) in st.written):
+                return False
+            return helper(self, st, f["symbols"], self.ptab, self.PL + 1)
+        if f["parent"] is not None or f["buffer"] is not None or f["block"] is not None or f["require_output_check"] is not False:
+            return False
+        return helper(self, st, f["symbols"], None, self.lv.t)
+
+    posts = [("fields_and_table", p_post)]
+
+    def concretize(self, model, pre, out):
+        return {"method": "__init__"}
+
+    def replay(self, w):
+        return replay_frames(w)
+
+
+def replay_frames(w):
+    """native: Frame construction / inner / soft / copy on the real classes + the scoping family"""
+    problems = []
+    ec = N.EvalContext(__import__("jinja2").Environment())
+    root = C.Frame(ec, level=3)
+    root.symbols.store("x")
+    root.buffer, root.block, root.require_output_check, root.toplevel, root.rootlevel = "t_1", "b", True, True, True
+    inner = root.inner()
+    if not (inner.parent is root and inner.symbols.parent is root.symbols and inner.symbols.level == 4 and inner.symbols.refs == {} and inner.buffer == "t_1"
+            and inner.block == "b" and inner.require_output_check is True and not any(getattr(inner, k) for k in FRAME_FLAGS)):
+        problems.append(f"inner(): parent/table/level/flags wrong: level {inner.symbols.level}, flags {[k for k in FRAME_FLAGS if getattr(inner, k)]}")
+    iso = root.inner(isolated=True)
+    if not (iso.parent is None and iso.symbols.parent is None and iso.symbols.level == 4 and iso.buffer is None):
+        problems.append("inner(isolated=True) does not start a fresh chain one level deeper")
+    for name in ("soft", "copy"):
+        c = getattr(root, name)()
+        if c is root or c.symbols is root.symbols or c.symbols.refs is root.symbols.refs or c.symbols.loads is root.symbols.loads or c.symbols.stores is root.symbols.stores:
+            problems.append(f"{name}() shares the symbol table with the enclosing frame")
+        if real_state(c.symbols) != real_state(root.symbols) or c.symbols.parent is not root.symbols.parent or c.parent is not root.parent:
+            problems.append(f"{name}() does not copy the table")
+        want = (False, True) if name == "soft" else (True, False)
+        if (c.rootlevel, c.soft_frame) != want or c.toplevel is not True or c.buffer != "t_1":
+            problems.append(f"{name}(): flags rootlevel={c.rootlevel} soft_frame={c.soft_frame} toplevel={c.toplevel}")
+    bad, det = native_scoping()
+    if bad:
+        problems.append(det)
+    return (bool(problems), "; ".join(problems[:3]) or "Frame construction agrees with the frame discipline")
+
+
 # ------------------------------------------------------------------ C03.symbols.no_alias
 
 # names that generated code uses for its own purposes (compiler.py: write_commons, visit_Template, visit_For, macro_body,
@@ -893,7 +1128,7 @@ class NoAlias(VC):
         if out.raised or not isinstance(out.value, Sym):
             return False
         v = out.value.t
-        return z3.And(z3.Not(z3.InRe(v, z3.Concat(z3.Re("t_"), DIGITS))), z3.Not(z3.InRe(v, z3.Concat(z3.Re("block_"), z3.Star(z3.AllChar(S_))))),
+        return z3.And(z3.Not(z3.InRe(v, z3.Concat(z3.Re("t_"), DIGITS))), z3.Not(z3.InRe(v, z3.Concat(z3.Re("block_"), z3.Full(z3.ReSort(S_))))),
                       *[v != z3.StringVal(c) for c in internal_names()])
 
     posts = [("injective_in_level_and_name", p_injective), ("documented_shape", p_shape), ("never_an_internal_name", p_not_internal)]
@@ -932,6 +1167,1049 @@ def replay_no_alias(w):
     return (bool(problems), "; ".join(problems[:3]) or "identifiers are distinct, non-internal and of the documented shape")
 
 
+# ------------------------------------------------------------------ C03.visitors / C03.emit.scopes : frame discipline of the visitors
+
+def _mk(field, ctx="load"):
+    return N.Name(f"M_{field}", ctx)
+
+
+def _out(field):
+    return [N.Output([_mk(field)])]
+
+
+def marker_node(cls):
+    """a concrete node of the class whose every child field holds a distinct marker name"""
+    flt = lambda: N.Filter(None, "f", [_mk("filter")], [], None, None)
+    if cls is N.For:
+        return N.For(_mk("target", "store"), _mk("iter"), _out("body"), _out("else_"), _mk("test"), False)
+    if cls is N.With:
+        return N.With([_mk("targets", "param")], [_mk("values")], _out("body"))
+    if cls is N.FilterBlock:
+        return N.FilterBlock(_out("body"), flt())
+    if cls is N.AssignBlock:
+        return N.AssignBlock(_mk("target", "store"), flt(), _out("body"))
+    if cls is N.Macro:
+        return N.Macro("M_name", [_mk("args", "param")], [_mk("defaults")], _out("body"))
+    if cls is N.CallBlock:
+        return N.CallBlock(N.Call(_mk("call"), [], [], None, None), [_mk("args", "param")], [_mk("defaults")], _out("body"))
+    if cls is N.Scope:
+        return N.Scope(_out("body"))
+    if cls is N.If:
+        return N.If(_mk("test"), _out("body"), [N.If(_mk("elif_"), _out("elif_"), [], [])], _out("else_"))
+    raise ValueError(cls)
+
+
+def analysed(sym):
+    return {n[2:] for n in set(sym.refs) | set(sym.stores) if n.startswith("M_")}
+
+
+def outer_analysed(cls):
+    """fields whose names the REAL FrameSymbolVisitor records in the ENCLOSING table when it meets a node of this class"""
+    sym = IDT.Symbols()
+    IDT.FrameSymbolVisitor(sym).visit(marker_node(cls))
+    return analysed(sym), sym
+
+
+def inner_analysed(cls, **kw):
+    """fields whose names the REAL RootVisitor (Symbols.analyze_node) records in the table of the node's own frame"""
+    sym = IDT.Symbols(parent=IDT.Symbols())
+    sym.analyze_node(marker_node(cls), **kw)
+    return analysed(sym), sym
+
+
+# what the property statement demands, per construct:
+#   outer   fields that belong to the ENCLOSING scope (evaluated / assigned outside)
+#   scoped  fields that belong to the construct's own fresh scope
+#   no_leak fields that can assign: the enclosing table must not learn them ("assignments do not leak")
+SCOPES = {
+    "For": dict(outer={"iter"}, scoped={"target", "body", "else_", "test"}, no_leak={"target", "body", "else_"}, n_inner=3),
+    "With": dict(outer={"values"}, scoped={"targets", "body"}, no_leak={"targets", "body"}, n_inner=1),
+    "FilterBlock": dict(outer=set(), scoped={"body", "filter"}, no_leak={"body"}, n_inner=1),
+    "AssignBlock": dict(outer={"target"}, scoped={"body", "filter"}, no_leak={"body"}, n_inner=1),
+    "Scope": dict(outer=set(), scoped={"body"}, no_leak={"body"}, n_inner=1),
+    "Macro": dict(outer=set(), scoped={"defaults", "body"}, no_leak={"args", "body"}, n_inner=1),
+    "CallBlock": dict(outer={"call"}, scoped={"defaults", "body"}, no_leak={"args", "body"}, n_inner=1),
+}
+
+
+def record_frames(I):
+    """emission run instrumentation: which child is visited in which frame, which table is analysed"""
+    orig = I.specs["CodeGenerator.visit"]
+
+    def visit(I_, st, args, kwargs, node):
+        fr = args[2] if len(args) > 2 else kwargs.get("frame")
+        st.trace.append(Event("call", "gen.visit", [args[1], fr]))
+        return orig(I_, st, args, kwargs, node)
+
+    I.specs["CodeGenerator.visit"] = visit
+    for nm in ("visit_Filter", "visit_Call"):
+        o2 = I.specs[f"CodeGenerator.{nm}"]
+
+        def dv(I_, st, args, kwargs, node, o2=o2):
+            st.trace.append(Event("call", "gen.visit", [args[1], args[2]]))
+            return o2(I_, st, args, kwargs, node)
+
+        I.specs[f"CodeGenerator.{nm}"] = dv
+
+    def analyze(I_, st, args, kwargs, node):
+        st.trace.append(Event("call", "symbols.analyze_node", args, kwargs))
+        return [(st, None)]
+
+    I.specs["Symbols.analyze_node"] = analyze
+
+    def find_all(I_, st, args, kwargs, node):
+        # Node.find_all(cls): an arbitrary number of descendants of that class (abstract list)
+        from pyvc import emit
+        cls = args[1]
+        if isinstance(cls, tuple):
+            raise Unsupported("find_all of several classes", node)
+        h = st.get(args[0])
+        return [(st, st.alloc(emit.HNodeList(cls, f"{h.path}.find_all({cls.__name__})", kind="expr")))]
+
+    I.specs["Node.find_all"] = find_all
+    # bookkeeping of the "parameter not yet assigned" optimisation of visit_Name: not a scoping decision, abstract here
+    for nm in ("push_parameter_definitions", "pop_parameter_definitions", "mark_parameter_stored"):
+        I.specs[f"CodeGenerator.{nm}"] = A.abstract_fn(nm, returns=None)
+    I.specs["CodeGenerator.parameter_is_undeclared"] = A.abstract_fn("parameter_is_undeclared", returns="bool")
+
+
+def field_of(st, child):
+    if not isinstance(child, Ref):
+        return None
+    path = getattr(st.get(child), "path", "") or ""
+    m = re.match(r"node\.([A-Za-z_]+)", path)
+    return m.group(1) if m else None
+
+
+class ScopeDiscipline(Task):
+    """C03.emit.scopes.<Class> (emission, symbolic over all paths of the real visitor) joined with C03.visitors.<Class>
+    (the real FrameSymbolVisitor / RootVisitor run on a marker node)."""
+    kind = "emission"
+
+    def __init__(self, cls_name, extra=(), is_async=None):
+        self.prop, self.cls_name, self.is_async = "C03", cls_name, is_async
+        self.name = f"C03.emit.scopes.{cls_name}" + ("" if is_async is None else "[async]" if is_async else "[sync]")
+        self.extra = list(extra)  # [(obligation name, predicate(schema, tree, placeholders, text))] checked on the same run
+        if cls_name in ("Macro", "CallBlock"):
+            self.bound_text = "macro / call block nodes with a concrete parameter list of length 1 (name, default, body, flags symbolic)"
+
+    def finding_key(self, res):
+        return (res.witness or {}).get("key", "?")
+
+    def replay(self, w):
+        v, d = replay_scopes(w)
+        if not v:
+            v2, d2 = replay_tracking(w)
+            if v2:
+                return v2, d2
+        return v, d
+
+    def run_schemas(self, tier="quick"):
+        from pyvc import emit
+        cls = getattr(N, self.cls_name)
+        kw = {"pre": (lambda st, g, nd: set_tracking(st, g))} if self.cls_name == "For" else {}
+        if self.is_async is not None:
+            kw["env_fields"] = {"is_async": self.is_async}  # case split over environment.is_async (two tasks, run in parallel)
+        if self.cls_name in ("Macro", "CallBlock"):
+            def fields(st):
+                return {"args": st.alloc(HList(items=[emit.make_node(st, N.Name, "node.args[0]")]), initial=True),
+                        "defaults": st.alloc(HList(items=[emit.make_node(st, N.Expr, "node.defaults[0]", kind="expr")]), initial=True)}
+            kw["node_fields"] = fields
+        out = []
+        big = self.cls_name in ("For", "Macro", "CallBlock")
+        for buf in ((None,) if big and tier == "quick" else (None, "t_buf")):
+            scs, _I = emit.run_visitor(f"jinja2.compiler:CodeGenerator.visit_{self.cls_name}", cls, buffer=buf, configure=track_configure, **kw)
+            for sc in scs:
+                sc.buffer = buf
+            out += scs
+        return out
+
+    def run(self, tier, seed):
+        t0 = time.time()
+        try:
+            scs = self.run_schemas(tier)
+        except Unsupported as ex:
+            return [Res(self.name + ".engine", "unknown", "pyvc-emit", time.time() - t0, f"unsupported: {ex}", self.kind)]
+        res = []
+        cls = getattr(N, self.cls_name)
+        # analysis side (native, exact: the visitors dispatch on the node class only)
+        outer, _ = outer_analysed(cls)
+        spec = SCOPES.get(self.cls_name)
+        seen = set()
+
+        def add(name, fails, key):
+            if (name, key) in seen and fails:
+                return
+            seen.add((name, key))
+            res.append(Res(name, "refuted" if fails else "discharged", "pyvc-emit", 0, "; ".join(fails[:3]), self.kind,
+                           {"class": self.cls_name, "key": key, "failures": fails[:4]} if fails else None))
+
+        if self.is_async:
+            pass  # the analysis-side obligations are reported by the [sync] task
+        elif spec is not None:
+            leak = sorted(spec["no_leak"] & outer)
+            add(f"C03.visitors.{self.cls_name}.no_leak", [f"FrameSymbolVisitor.visit_{self.cls_name} records the names of field `{f}` in the ENCLOSING table "
+                                                           f"(assignments inside a {self.cls_name} would leak)" for f in leak], f"{self.cls_name}.leak")
+            missing = sorted(spec["outer"] - outer)
+            add(f"C03.visitors.{self.cls_name}.outer_fields", [f"field `{f}` belongs to the enclosing scope but FrameSymbolVisitor.visit_{self.cls_name} does not analyse it"
+                                                               for f in missing], f"{self.cls_name}.outer")
+        else:
+            missing = sorted({"test", "body", "elif_", "else_"} - outer)
+            add("C03.visitors.If.shares_scope", [f"`if` shares the enclosing scope, but field `{f}` is not analysed in the enclosing table" for f in missing], "If.outer")
+        n_paths = 0
+        for i, sc in enumerate(scs):
+            if sc.outcome == "raise":
+                # compile-time rejections (CodeGenerator.fail) are not scope decisions
+                from jinja2.exceptions import TemplateAssertionError
+                ok = getattr(sc.value, "cls", None) is TemplateAssertionError
+                add(f"{self.name}#p{i}", [] if ok else [f"visitor raises {sc.value!r}"], f"{self.cls_name}.raise")
+                continue
+            n_paths += 1
+            fails = self.check_path(sc, spec, outer)
+            for key, msgs in fails.items():
+                add(f"{self.name}#p{i}", msgs, key)
+            if not fails:
+                add(f"{self.name}#p{i}", [], "")
+            for ob, pred in self.extra:
+                from pyvc import emit
+                txt, ph = sc.texts()[0]
+                try:
+                    tree = emit.parse_stmts(txt)
+                    msgs = pred(sc, tree, ph, txt) or []
+                except SyntaxError as ex:
+                    msgs = [f"emitted text does not parse: {ex.msg}"]
+                add(f"{ob}{self.name[len('C03.emit.scopes.' + self.cls_name):]}#p{i}", msgs, ob)
+        if n_paths < 2:
+            res.append(Res(self.name + ".paths", "error", "pyvc-emit", 0, f"only {n_paths} paths", self.kind))
+        return res
+
+    def check_path(self, sc, spec, outer_set):
+        st = sc.st
+        outer_frame = sc.gen.frame
+        fails = {}
+
+        def fail(key, msg):
+            fails.setdefault(f"{self.cls_name}.{key}", []).append(msg)
+
+        evs = [e for e in st.trace if e.kind == "call"]
+        inner = [e for e in evs if e.name == "frame.inner"]
+        soft = [e for e in evs if e.name in ("frame.soft", "frame.copy")]
+        visits = [(k, e) for k, e in enumerate(evs) if e.name == "gen.visit"]
+        if spec is None:  # If
+            if len(soft) != 1 or soft[0].name != "frame.soft" or inner or soft[0].args[0] != outer_frame:
+                fail("frames", f"visit_If must work on exactly one frame.soft() of its frame (soft: {len(soft)}, inner: {len(inner)})")
+                return fails
+            f = soft[0].result
+            for k, e in visits:
+                if e.args[1] != f:
+                    fail("frames", f"field `{field_of(st, e.args[0])}` of an if is not visited in the soft frame")
+            if any(e.name in ("enter_frame", "leave_frame") for e in evs):
+                fail("frames", "visit_If enters / leaves a frame although `if` shares the enclosing scope")
+            return fails
+        if len(inner) != spec["n_inner"] or soft or any(e.args[0] != outer_frame or e.kwargs or len(e.args) > 1 for e in inner):
+            fail("frames", f"expected {spec['n_inner']} frame.inner() of the enclosing frame and no soft frame: inner={len(inner)} soft={len(soft)} "
+                           f"kwargs={[e.kwargs for e in inner]}")
+            return fails
+        frames = [e.result for e in inner]
+        sym_of = {st.get(f).fields["symbols"]: f for f in frames}
+        analysed_kw = {}
+        pos = {id(e): k for k, e in enumerate(evs)}
+        for e in evs:
+            if e.name == "symbols.analyze_node" and e.args and e.args[0] in sym_of:
+                analysed_kw.setdefault(sym_of[e.args[0]], []).append((pos[id(e)], dict(e.kwargs)))
+        enters = {f: [pos[id(e)] for e in evs if e.name == "enter_frame" and e.args and e.args[0] == f] for f in frames}
+        leaves = {f: [pos[id(e)] for e in evs if e.name == "leave_frame" and e.args and e.args[0] == f] for f in frames}
+        cls = getattr(N, self.cls_name)
+        for k, e in visits:
+            fld = field_of(st, e.args[0])
+            fr = e.args[1]
+            if fld is None:
+                continue
+            if fld in spec["outer"]:
+                if fr != outer_frame:
+                    fail(fld, f"field `{fld}` belongs to the enclosing scope but is visited in an inner frame")
+                elif fld not in outer_set:
+                    fail(fld, f"field `{fld}` is visited in the enclosing frame but FrameSymbolVisitor.visit_{self.cls_name} does not analyse it there")
+                continue
+            if fld in spec["scoped"]:
+                if fr not in frames:
+                    fail(fld, f"field `{fld}` must be rendered in the construct's own fresh scope but is visited in {'the enclosing frame' if fr == outer_frame else 'another frame'}")
+                    continue
+                an = analysed_kw.get(fr, [])
+                if not an or min(p for p, _kw in an) > k:
+                    fail(fld, f"field `{fld}` is visited in an inner frame whose table was not analysed before")
+                    continue
+                known = set(outer_set)
+                for _p, kw in an:
+                    kw = {a: (b if isinstance(b, str) else None) for a, b in kw.items()}
+                    try:
+                        known |= inner_analysed(cls, **kw)[0]
+                    except Exception as ex:  # noqa
+                        fail(fld, f"analyze_node({kw}) on a {self.cls_name} raises {type(ex).__name__}: {ex}")
+                if fld not in known:
+                    fail(fld, f"field `{fld}` is visited in the inner frame, but neither RootVisitor.visit_{self.cls_name} (inner table) nor FrameSymbolVisitor.visit_{self.cls_name} "
+                              f"(enclosing table) analyses it: a name used only there is unknown to the frame (Symbols.ref raises AssertionError)")
+                is_target = fld in ("target", "targets")
+                if not is_target:
+                    if len(enters[fr]) != 1 or enters[fr][0] > k:
+                        fail(fld, f"field `{fld}` is emitted before enter_frame of its frame (loads / aliases not yet bound)")
+                    if len(leaves[fr]) != 1 or leaves[fr][0] < k:
+                        fail(fld, f"field `{fld}` is emitted after leave_frame of its frame")
+                continue
+        for f in frames:
+            if len(enters[f]) > 1 or len(leaves[f]) > 1 or len(enters[f]) != len(leaves[f]):
+                fail("frames", f"enter_frame / leave_frame are not paired: {len(enters[f])} / {len(leaves[f])}")
+            elif enters[f] and enters[f][0] > leaves[f][0]:
+                fail("frames", "leave_frame precedes enter_frame")
+            if any(e.args[1] == f for _k, e in visits) and not enters[f]:
+                fail("frames", "an inner frame is used without enter_frame")
+        return fails
+
+
+def replay_scopes(w):
+    """native: every construct keeps its assignments inside, uses names that occur only in its header fields, and
+    evaluates header fields in the documented scope"""
+    import jinja2
+    env = jinja2.Environment()
+    cases = [
+        ("{% for x in xs %}{% set y = x %}{% endfor %}[{{ x }}{{ y }}]", {"xs": [1]}, "[]"),
+        ("{% for x in x %}{{ x }}{% endfor %}", {"x": [1, 2]}, "12"),
+        ("{% for x in xs if x > lim %}{{ x }}{% endfor %}", {"xs": [1, 2, 3], "lim": 1}, "23"),
+        ("{% for x in [] %}{% else %}{{ e }}{% endfor %}", {"e": "E"}, "E"),
+        ("{% with a = b %}{{ a }}{% set c = 1 %}{% endwith %}[{{ a }}{{ c }}]", {"b": 5}, "5[]"),
+        ("{% filter replace('a', r) %}aa{% set q = 1 %}{% endfilter %}[{{ q }}]", {"r": "b"}, "bb[]"),
+        ("{% set x %}a{% set q = 1 %}{% endset %}{{ x }}[{{ q }}]", {}, "a[]"),
+        ("{% set x | replace('a', r) %}aXa{% endset %}{{ x }}", {"r": "b"}, "bXb"),
+        ("{% for i in [1] %}{% set x | replace('a', r) %}aXa{% endset %}{{ x }}{% endfor %}", {"r": "b"}, "bXb"),
+        ("{% macro m(p=d) %}{{ p }}{% set q = 1 %}{% endmacro %}{{ m() }}[{{ p }}{{ q }}]", {"d": 4}, "4[]"),
+        ("{% macro k() %}{{ caller() }}{% endmacro %}{% call k() %}{{ v }}{% set q = 1 %}{% endcall %}[{{ q }}]", {"v": 3}, "3[]"),
+        ("{% if t %}{% set q = 1 %}{% endif %}[{{ q }}]", {"t": True}, "[1]"),
+        ("{% if f %}{% elif t %}{% set q = 2 %}{% else %}{% endif %}[{{ q }}]", {"t": True}, "[2]"),
+    ]
+    problems = []
+    for src, data, want in cases:
+        try:
+            got = env.from_string(src).render(data)
+        except Exception as ex:
+            got = f"{type(ex).__name__}: {ex}"
+        if got != want:
+            problems.append(f"{src!r} with {data!r}: {got!r}, scoping rules give {want!r}")
+    key = (w or {}).get("key", "")
+    if key == "AssignBlock.filter":
+        problems = [p for p in problems if "set x |" in p] or problems
+    elif problems:
+        other = [p for p in problems if "set x |" not in p]
+        problems = other or ([] if key else problems)
+    return (bool(problems), "; ".join(problems[:2]) or "scope constructs keep their assignments and resolve their header names")
+
+
+SCOPE_TASKS = [ScopeDiscipline("For", [("C03.assign_tracking.visit_For.discard", lambda *a: for_discard_pred(*a))], is_async=b) for b in (False, True)] + \
+              [ScopeDiscipline("Macro", [("C03.assign_tracking.visit_Macro.export", lambda *a: macro_export_pred(*a))], is_async=b) for b in (False, True)] + \
+              [ScopeDiscipline("CallBlock", is_async=b) for b in (False, True)] + \
+              [ScopeDiscipline(c) for c in ("With", "FilterBlock", "AssignBlock", "Scope", "If")]
+
+
+# ------------------------------------------------------------------ harness: any CodeGenerator method on the abstract generator
+
+def run_gen_method(method, build_args, buffer=None, configure=None, gen_fields=None, frame_flags=None, pre=None):
+    """symbolic run of CodeGenerator.<method>(*build_args(st, gen)) -> list of emission schemas"""
+    from pyvc import emit, extract
+    from pyvc.engine import Interp
+    I = Interp()
+    emit.install(I)
+    if configure:
+        configure(I)
+    st = State()
+    g = emit.Gen(st, buffer=buffer, gen_fields=gen_fields(st) if callable(gen_fields) else gen_fields, frame_flags=frame_flags)
+    if pre:
+        pre(st, g)
+    args = build_args(st, g)
+    clo = I.closure_of_function(extract.resolve(f"jinja2.compiler:CodeGenerator.{method}"))
+    out = []
+    for s2, v in I.call_closure(st, clo, [g.gen] + list(args), {}):
+        sc = emit.Schema(list(s2.ghost.get("out", [])), list(s2.pc), list(s2.notes), "raise" if isinstance(v, Raised) else "return", s2)
+        sc.value = v.exc if isinstance(v, Raised) else v
+        sc.gen = g
+        sc.buffer = buffer
+        out.append(sc)
+    return out
+
+
+def install_sorted(I):
+    """sorted(<collection of known host values>): dependency spec = Python's sorted"""
+    from pyvc.interp import deep_host
+
+    def sorted_spec(I_, st, args, kwargs, node):
+        items = I_.iter_concrete(st, args[0], node)
+        if kwargs or not deep_host(items):
+            raise Unsupported("sorted() of symbolic values", node)
+        return [(st, st.alloc(HList(items=sorted(items))))]
+
+    I.specs[("fn", id(sorted))] = sorted_spec
+
+    def map_spec(I_, st, args, kwargs, node):
+        fn, it = args
+        results = [(st, [])]
+        for x in I_.iter_concrete(st, it, node):
+            nxt = []
+            for s, acc in results:
+                for s2, v in I_.call(s, fn, [x], {}, node):
+                    if isinstance(v, Raised):
+                        raise Unsupported("map() callee raises", node)
+                    nxt.append((s2, acc + [v]))
+            results = nxt
+        return [(s, tuple(acc)) for s, acc in results]
+
+    I.specs[("fn", id(map))] = map_spec
+
+
+def stmts_of(sc):
+    from pyvc import emit
+    txt, ph = sc.texts()[0]
+    return emit.parse_stmts(txt) if txt.strip() else ast.parse(""), ph, txt
+
+
+def ident_of(ph, node):
+    """the symbolic identifier a placeholder Name stands for (z3 term) or None"""
+    if isinstance(node, ast.Name) and node.id in ph and isinstance(ph[node.id], tuple) and ph[node.id][0] == "ident":
+        return ph[node.id][1]
+    return None
+
+
+# ------------------------------------------------------------------ C03.assign_tracking
+
+TRACK_SETS = [[], ["a"], ["_p"], ["a", "b"], ["b", "_p"], ["_p", "_q"], ["c", "a", "_p"], ["a", "b", "c"]]
+
+
+def assign_tracking(task, tier, seed):
+    """pop_assign_tracking on every small tracked set x every frame kind (flags symbolic, at most one of loop / block /
+    toplevel): stores of a loop body go to _loop_vars, of a block to _block_vars, top-level ones to context.vars, and exactly
+    the public top-level names are exported; other frames and empty sets emit nothing."""
+    rs = []
+    T, L, B = z3.Bool("frame.toplevel"), z3.Bool("frame.loop_frame"), z3.Bool("frame.block_frame")
+    for names in TRACK_SETS:
+        def gen_fields(st, names=names):
+            top = st.alloc(HSet(items=list(names)), initial=True)
+            below = st.alloc(HSet(items=["zz"]), initial=True)
+            return {"_assign_stack": st.alloc(HList(items=[below, top]), initial=True)}
+
+        def pre(st, g):
+            f = st.get(g.frame)
+            t, l, b = (to_term(I_getattr(st, g.frame, k), "bool") for k in ("toplevel", "loop_frame", "block_frame"))
+            st.assume(z3.Not(z3.And(l, b)), z3.Not(z3.And(t, l)), z3.Not(z3.And(t, b)))
+
+        scs = run_gen_method("pop_assign_tracking", lambda st, g: [g.frame], gen_fields=gen_fields, pre=pre, configure=install_sorted)
+        for i, sc in enumerate(scs):
+            name = f"C03.assign_tracking.pop[{','.join(names) or 'empty'}]#p{i}"
+            fails = check_pop(sc, names, T, L, B)
+            rs.append(Res(name, "refuted" if fails else "discharged", "pyvc-emit", 0, "; ".join(fails[:3]), "emission",
+                          {"names": names, "schema": sc.describe()[:300], "path_condition": [str(c) for c in sc.pc][:8]} if fails else None))
+        if len(scs) < (1 if not names else 4):
+            rs.append(Res(f"C03.assign_tracking.pop[{','.join(names)}].paths", "error", "pyvc-emit", 0, f"only {len(scs)} paths", "emission"))
+    return rs
+
+
+def I_getattr(st, ref, name):
+    """materialise a lazy symbolic field of an abstract object"""
+    h = st.get(ref)
+    if name not in h.fields:
+        spec = h.lazy[name]
+        h.fields[name] = sym(f"{h.path}.{name}", spec) if isinstance(spec, str) else spec(st, f"{h.path}.{name}")
+    return h.fields[name]
+
+
+def check_pop(sc, names, T, L, B):
+    if sc.outcome == "raise":
+        return [f"raises {sc.value!r}"]
+    st = sc.st
+    stack = st.get(st.get(sc.gen.gen).fields["_assign_stack"]).items
+    fails = []
+    if len(stack) != 1 or st.get(stack[0]).items != ["zz"]:
+        fails.append("pop_assign_tracking must pop exactly the topmost tracking set and leave the enclosing one untouched")
+    tree, ph, txt = stmts_of(sc)
+    kind = "loop" if sc.holds(L) else "block" if sc.holds(B) else "top" if sc.holds(T) else "other" if sc.holds(z3.Not(z3.Or(T, L, B))) else None
+    if kind is None:
+        return fails + ["path does not decide the frame kind"]
+    refs = {}
+    for e in st.trace:
+        if e.kind == "call" and e.name == "symbols.ref":
+            refs.setdefault(e.args[0], []).append(e.result.t)
+    writes, exports, other = {}, [], []
+    for stmt in tree.body:
+        tgt = {"loop": "_loop_vars", "block": "_block_vars", "top": "context.vars"}.get(kind)
+        if isinstance(stmt, ast.Assign) and len(stmt.targets) == 1 and isinstance(stmt.targets[0], ast.Subscript):
+            sub = stmt.targets[0]
+            from pyvc import emit
+            base = emit.call_name(sub.value) if isinstance(sub.value, ast.Attribute) else getattr(sub.value, "id", None)
+            if base == tgt and isinstance(sub.slice, ast.Constant):
+                writes[sub.slice.value] = stmt.value
+                continue
+        if isinstance(stmt, ast.Expr) and isinstance(stmt.value, ast.Call):
+            from pyvc import emit
+            cn = emit.call_name(stmt.value)
+            a = stmt.value.args
+            if cn == f"{tgt}.update" and len(a) == 1 and isinstance(a[0], ast.Dict) and all(isinstance(k, ast.Constant) for k in a[0].keys):
+                for k, v in zip(a[0].keys, a[0].values):
+                    writes[k.value] = v
+                continue
+            if cn == "context.exported_vars.add" and len(a) == 1 and isinstance(a[0], ast.Constant):
+                exports.append(a[0].value)
+                continue
+            if cn == "context.exported_vars.update" and len(a) == 1 and isinstance(a[0], ast.Tuple) and all(isinstance(x, ast.Constant) for x in a[0].elts):
+                exports += [x.value for x in a[0].elts]
+                continue
+        other.append(ast.unparse(stmt)[:80])
+    if other:
+        fails.append(f"unexpected statements for a {kind} frame: {other[:2]}")
+    want = set(names) if kind != "other" else set()
+    if set(writes) != want:
+        fails.append(f"{kind} frame with stores {names}: variables written to the {kind} store: {sorted(writes)}, expected {sorted(want)}")
+    for n, v in writes.items():
+        t = ident_of(ph, v)
+        if t is None or not any(t.eq(r) for r in refs.get(n, [])):
+            fails.append(f"value stored for {n!r} is not frame.symbols.ref({n!r})")
+    pub = sorted(n for n in names if not n.startswith("_")) if kind == "top" else []
+    if sorted(exports) != pub:
+        fails.append(f"{kind} frame with stores {names}: exported {sorted(exports)}, expected exactly the public top-level names {pub}")
+    return fails
+
+
+class TrackSet:
+    """model class of the topmost tracking set in runs where only the operations on it matter"""
+
+
+def track_configure(I):
+    record_frames(I)
+
+    def add(I_, st, args, kwargs, node):
+        st.trace.append(Event("call", "track.add", args[1:]))
+        return [(st, None)]
+
+    def diff(I_, st, args, kwargs, node):
+        st.trace.append(Event("call", "track.difference_update", args[1:]))
+        return [(st, None)]
+
+    I.specs["TrackSet.add"] = add
+    I.specs["TrackSet.difference_update"] = diff
+
+
+def track_fields(st):
+    return {"_assign_stack": st.alloc(HList(items=[st.alloc(HObj(TrackSet, path="tracking"), initial=True)]), initial=True)}
+
+
+def name_tracking_pred(sc, tree, ph, txt):
+    """visit_Name: a STORE in a toplevel / loop / block frame is recorded in the current tracking set; nothing else is"""
+    if sc.outcome == "raise":
+        return [f"raises {sc.value!r}"]
+    adds = [e for e in sc.st.trace if e.kind == "call" and e.name == "track.add"]
+    nf = sc.st.get(sc.node).fields
+    ctx = nf.get("ctx")
+    is_store = sc.holds(ctx.t == z3.StringVal("store")) if isinstance(ctx, Sym) else ctx == "store"
+    not_store = sc.holds(ctx.t != z3.StringVal("store")) if isinstance(ctx, Sym) else ctx != "store"
+    tracked_frame = z3.Or(z3.Bool("frame.toplevel"), z3.Bool("frame.loop_frame"), z3.Bool("frame.block_frame"))
+    if is_store and sc.holds(tracked_frame):
+        if len(adds) != 1 or adds[0].args[0] is not nf.get("name"):
+            return ["a store in a toplevel / loop / block frame is not recorded in the assignment tracking set"]
+    elif not_store or sc.holds(z3.Not(tracked_frame)):
+        if adds:
+            return ["a name is recorded as assigned although it is not a store in a tracked frame"]
+    else:
+        return ["path does not decide store / frame kind"]
+    return []
+
+
+def for_discard_pred(sc, tree, ph, txt):
+    """visit_For: the names stored in the loop body are removed from the enclosing tracking set at the end (they were
+    recorded while the body was compiled but do not outlive the iteration)"""
+    if sc.outcome == "raise":
+        return []
+    st = sc.st
+    evs = [e for e in st.trace if e.kind == "call"]
+    diffs = [e for e in evs if e.name == "track.difference_update"]
+    loops = [e.result for e in evs if e.name == "frame.inner" and st.get(e.result).fields.get("loop_frame") is True]
+    if len(loops) != 1:
+        return [f"visit_For must mark exactly one inner frame as loop_frame ({len(loops)})"]
+    if len(diffs) != 1:
+        return [f"visit_For must discard the loop stores from the enclosing tracking set exactly once ({len(diffs)})"]
+    arg = diffs[0].args[0]
+    sym_ref = st.get(loops[0]).fields["symbols"]
+    stores = st.get(sym_ref).fields.get("stores")
+    if arg is not stores and arg != stores:
+        return ["the discarded set is not loop_frame.symbols.stores"]
+    if evs.index(diffs[0]) < max([k for k, e in enumerate(evs) if e.name in ("gen.visit", "leave_frame")] or [0]):
+        return ["loop stores are discarded before the loop has been compiled"]
+    return []
+
+
+def assign_bracket_pred(which):
+    def pred(sc, tree, ph, txt):
+        """visit_Assign / visit_AssignBlock: push a tracking layer first, pop it for the ENCLOSING frame after the target"""
+        if sc.outcome == "raise":
+            return []
+        st = sc.st
+        stack = st.get(st.get(sc.gen.gen).fields["_assign_stack"]).items
+        fails = []
+        if len(stack) != 1 or not isinstance(st.get(stack[0]), HSet) or st.get(stack[0]).items != []:
+            fails.append("exactly one fresh (empty) tracking layer must be pushed")
+        evs = [e for e in st.trace if e.kind == "call"]
+        pops = [e for e in evs if e.name == "pop_assign_tracking"]
+        if len(pops) != 1 or pops[0].args[0] != sc.gen.frame:
+            fails.append("pop_assign_tracking must be called once, for the frame the target is assigned in (the enclosing frame)")
+        tv = [k for k, e in enumerate(evs) if e.name == "gen.visit" and field_of(st, e.args[0]) == "target"]
+        if len(tv) != 1 or (pops and evs.index(pops[0]) < tv[0]):
+            fails.append("the tracking layer is popped before the target was compiled")
+        for e in evs:
+            if e.name == "gen.visit" and field_of(st, e.args[0]) == "target" and e.args[1] != sc.gen.frame:
+                fails.append("the assignment target is compiled in an inner frame (the assignment would not reach the enclosing scope)")
+        return fails
+    return pred
+
+
+def macro_export_pred(sc, tree, ph, txt):
+    """visit_Macro in a toplevel frame: context.vars[name] = <macro local>, exported iff the name is public"""
+    if sc.outcome == "raise" or tree is None:
+        return []
+    from pyvc import emit
+    top = sc.holds(z3.Bool("frame.toplevel"))
+    nottop = sc.holds(z3.Not(z3.Bool("frame.toplevel")))
+    exp = [n for n in ast.walk(tree) if isinstance(n, ast.Call) and (emit.call_name(n) or "").startswith("context.exported_vars")]
+    ctxw = [n for n in ast.walk(tree) if isinstance(n, ast.Subscript) and emit.call_name(n.value) == "context.vars" and isinstance(n.ctx, ast.Store)]
+    fails = []
+    nm = sc.st.get(sc.node).fields.get("name")
+    if nottop:
+        if exp or ctxw:
+            fails.append("a macro defined in an inner scope is written to context.vars / exported")
+    elif top:
+        if len(ctxw) != 1:
+            fails.append("a top-level macro must be stored in context.vars")
+        priv_t = z3.PrefixOf(z3.StringVal("_"), nm.t) if isinstance(nm, Sym) else z3.BoolVal(str(nm).startswith("_"))
+        if sc.holds(priv_t):
+            if exp:
+                fails.append("a macro whose name starts with an underscore is exported")
+        elif sc.holds(z3.Not(priv_t)):
+            if len(exp) != 1 or emit.call_name(exp[0]) != "context.exported_vars.add":
+                fails.append("a public top-level macro is not exported (exactly once)")
+        else:
+            fails.append("the export decision does not depend on the leading underscore of the macro name")
+    else:
+        fails.append("path does not decide frame.toplevel")
+    return fails
+
+
+def replay_tracking(w):
+    """native: exports / context variables of real templates"""
+    import jinja2
+    env = jinja2.Environment()
+    cases = [
+        ("{% set a = 1 %}{% set _p = 2 %}{% set b, c = 3, 4 %}{% macro m() %}{% endmacro %}{% macro _h() %}{% endmacro %}", {"a", "b", "c", "m"}, {"a": 1, "_p": 2, "b": 3, "c": 4}),
+        ("{% for i in [1] %}{% set a = i %}{% endfor %}{% set z = 1 %}", {"z"}, {"z": 1}),
+        ("{% with %}{% set a = 1 %}{% endwith %}", set(), {}),
+        ("{% if true %}{% set a = 1 %}{% endif %}", {"a"}, {"a": 1}),
+        ("{% set a %}x{% set q = 1 %}{% endset %}", {"a"}, {"a": "x"}),
+        ("{% macro m() %}{% set inner = 1 %}{% endmacro %}{{ m() }}", {"m"}, None),
+        ("{% set x %}{% for i in [1] %}{{ i }}{% endfor %}{% endset %}", {"x"}, {"x": "1"}),
+        ("{% for i in [1] %}{% set x %}{% for j in [2] %}{{ j }}{% endfor %}{% endset %}{% endfor %}", set(), {}),
+        ("{% for i in [1] %}{% set a = i %}{% for j in [1] %}{% set b = j %}{% endfor %}{% endfor %}", set(), {}),
+    ]
+    problems = []
+    for src, exported, vars_ in cases:
+        try:
+            t = env.from_string(src)
+            ctx = t.new_context({})
+            "".join(t.root_render_func(ctx))
+        except Exception as ex:
+            problems.append(f"{src!r}: {type(ex).__name__}: {ex}")
+            continue
+        got_e = set(ctx.exported_vars)
+        if got_e != exported:
+            problems.append(f"{src!r}: exported {sorted(got_e)}, expected exactly the public top-level names {sorted(exported)}")
+        if vars_ is not None:
+            got_v = {k: (str(v) if not isinstance(v, int) else v) for k, v in ctx.vars.items() if not callable(v)}
+            if got_v != vars_:
+                problems.append(f"{src!r}: context.vars {got_v}, expected {vars_}")
+    # loop stores are visible to scoped blocks / includes of that iteration through _loop_vars
+    env2 = jinja2.Environment(loader=jinja2.DictLoader({"inc": "[{{ a }}]"}))
+    got = env2.from_string("{% for i in [1, 2] %}{% set a = i %}{% include 'inc' %}{% endfor %}{% include 'inc' %}").render()
+    if got != "[1][2][]":
+        problems.append(f"loop store seen by an include: {got!r}, expected '[1][2][]'")
+    got = env2.from_string("{% set a %}x{% endset %}{% set b %}{% set a = 5 %}{% include 'inc' %}{% endset %}{{ b }}{% include 'inc' %}").render()
+    if got != "[5][x]":
+        problems.append(f"block store seen by an include: {got!r}, expected '[5][x]'")
+    return (bool(problems), "; ".join(problems[:3]) or "exports and context variables follow the assignment-tracking rules")
+
+
+def tracking_tasks():
+    from pyvc.emitcheck import EmitTask
+    return [
+        FnTask("C03", "C03.assign_tracking.pop", assign_tracking, "emission", replay_tracking),
+        EmitTask("C03", "C03.assign_tracking.visit_Name", "jinja2.compiler:CodeGenerator.visit_Name", N.Name, name_tracking_pred, mode="expr",
+                 buffers=(None,), replay_fn=replay_tracking, configure=track_configure, gen_fields=None, min_paths=4, pre=lambda st, g, nd: set_tracking(st, g)),
+        EmitTask("C03", "C03.assign_tracking.visit_Assign.bracket", "jinja2.compiler:CodeGenerator.visit_Assign", N.Assign, assign_bracket_pred("Assign"), mode="stmts",
+                 buffers=(None, "t_buf"), replay_fn=replay_tracking, configure=assign_configure, min_paths=1),
+        EmitTask("C03", "C03.assign_tracking.visit_AssignBlock.bracket", "jinja2.compiler:CodeGenerator.visit_AssignBlock", N.AssignBlock, assign_bracket_pred("AssignBlock"),
+                 mode="stmts", buffers=(None, "t_buf"), replay_fn=replay_tracking, configure=record_frames, min_paths=2),
+    ]
+
+
+def set_tracking(st, g):
+    st.get(g.gen).fields["_assign_stack"] = st.alloc(HList(items=[st.alloc(HObj(TrackSet, path="tracking"), initial=True)]), initial=True)
+
+
+def assign_configure(I):
+    record_frames(I)
+    I.specs["Node.find_all"] = lambda I_, st, args, kwargs, node: [(st, ())]  # no namespace refs in this run (see C03.namespace.guard)
+
+
+# ------------------------------------------------------------------ C03.enter_leave_frame
+
+LOAD_TABLES = ([[]] + [[a] for a in (PARAM, RESOLVE, ALIAS, UNDEF)] + [[a, b] for a in (PARAM, RESOLVE, ALIAS, UNDEF) for b in (PARAM, RESOLVE, ALIAS, UNDEF)]
+               + [[UNDEF, ALIAS, UNDEF], [RESOLVE, UNDEF, UNDEF], [UNDEF, UNDEF, UNDEF], [ALIAS, RESOLVE, PARAM], ["bogus"], [ALIAS, "bogus"]])
+
+
+def frame_with_loads(actions):
+    def pre(st, g):
+        items = {}
+        for i, a in enumerate(actions):
+            items[f"T{i}"] = (a, None if a in (PARAM, UNDEF) else sym(f"param{i}", "str"))
+        st.get(g.symbols).fields["loads"] = st.alloc(HDict(items=items), initial=True)
+    return pre
+
+
+def enter_leave_frame(task, tier, seed):
+    """enter_frame binds every load of the frame's table in its documented form (resolve -> `t = resolve('name')`, alias -> `t = outer`,
+    undefined -> `t = missing`, parameter -> nothing) - each target exactly once, nothing else; leave_frame resets exactly
+    the frame's targets to `missing` unless the Python function scope ends anyway."""
+    rs = []
+
+    def add(name, fails, wit):
+        rs.append(Res(name, "refuted" if fails else "discharged", "pyvc-emit", 0, "; ".join(fails[:3]), "emission", wit if fails else None))
+
+    for actions in LOAD_TABLES:
+        label = ",".join(actions) or "empty"
+        for ctxref in ("context", "t_9"):
+            gf = (lambda st, ctxref=ctxref: {"_context_reference_stack": st.alloc(HList(items=["context", ctxref] if ctxref != "context" else ["context"]), initial=True)})
+            scs = run_gen_method("enter_frame", lambda st, g: [g.frame], pre=frame_with_loads(actions), gen_fields=gf)
+            for i, sc in enumerate(scs):
+                add(f"C03.enter_leave_frame.enter[{label};{ctxref}]#p{i}", check_enter(sc, actions, ctxref), {"actions": actions, "schema": sc.describe()[:300], "which": "enter"})
+            if not scs:
+                rs.append(Res(f"C03.enter_leave_frame.enter[{label}].paths", "error", "pyvc-emit", 0, "no paths", "emission"))
+        for wps in (False, True):
+            scs = run_gen_method("leave_frame", lambda st, g, wps=wps: [g.frame, wps], pre=frame_with_loads(actions))
+            for i, sc in enumerate(scs):
+                add(f"C03.enter_leave_frame.leave[{label};python_scope={wps}]#p{i}", check_leave(sc, actions, wps), {"actions": actions, "schema": sc.describe()[:300], "which": "leave"})
+    return rs
+
+
+def check_enter(sc, actions, ctxref):
+    from pyvc import emit
+    if any(a not in (PARAM, RESOLVE, ALIAS, UNDEF) for a in actions):
+        ok = sc.outcome == "raise" and getattr(sc.value, "cls", None) is NotImplementedError
+        return [] if ok else ["an unknown load instruction must be rejected (NotImplementedError)"]
+    if sc.outcome == "raise":
+        return [f"raises {sc.value!r}"]
+    tree, ph, txt = stmts_of(sc)
+    st = sc.st
+    loads = st.get(st.get(sc.gen.symbols).fields["loads"]).items
+    want = []
+    undefs = []
+    for (t, (a, p)) in loads.items():
+        if a == RESOLVE:
+            want.append(("resolve", t, p))
+        elif a == ALIAS:
+            want.append(("alias", t, p))
+        elif a == UNDEF:
+            undefs.append(t)
+    got = list(tree.body)
+    fails = []
+    n_want = len(want) + (1 if undefs else 0)
+    if len(got) != n_want:
+        return [f"loads {actions}: {len(got)} statements emitted, expected {n_want}: {txt!r}"]
+    resolve_name = "resolve" if ctxref == "context" else f"{ctxref}.resolve"
+    for (kind, t, p), stmt in zip(want, got):
+        if not (isinstance(stmt, ast.Assign) and len(stmt.targets) == 1 and isinstance(stmt.targets[0], ast.Name) and stmt.targets[0].id == t):
+            fails.append(f"statement for {t} ({kind}) is {ast.unparse(stmt)!r}")
+            continue
+        v = stmt.value
+        if kind == "resolve":
+            okc = isinstance(v, ast.Call) and emit.call_name(v) == resolve_name and len(v.args) == 1 and not v.keywords and isinstance(v.args[0], ast.Constant)
+            key = f"'{v.args[0].value}'" if okc else None
+            if not (okc and key in ph and ph[key][0] == "repr" and ph[key][1].eq(p.t)):
+                fails.append(f"{t}: a resolve load must be emitted as `{t} = {resolve_name}(<name!r>)`, got {ast.unparse(stmt)!r}")
+        else:
+            tm = ident_of(ph, v)
+            if tm is None or not tm.eq(p.t):
+                fails.append(f"{t}: an alias load must be emitted as `{t} = <outer identifier>`, got {ast.unparse(stmt)!r}")
+    if undefs:
+        stmt = got[-1]
+        ok = isinstance(stmt, ast.Assign) and [getattr(x, "id", None) for x in stmt.targets] == undefs and isinstance(stmt.value, ast.Name) and stmt.value.id == "missing"
+        if not ok:
+            fails.append(f"undefined loads {undefs} must be bound to `missing` once each: {ast.unparse(stmt)!r}")
+    return fails
+
+
+def check_leave(sc, actions, with_python_scope):
+    if sc.outcome == "raise":
+        return [f"raises {sc.value!r}"]
+    tree, ph, txt = stmts_of(sc)
+    targets = [f"T{i}" for i in range(len(actions))]
+    if with_python_scope or not targets:
+        return [] if not tree.body else [f"leave_frame must emit nothing here: {txt!r}"]
+    if len(tree.body) != 1:
+        return [f"leave_frame must reset the frame's targets in one statement: {txt!r}"]
+    stmt = tree.body[0]
+    ok = isinstance(stmt, ast.Assign) and sorted(getattr(x, "id", "?") for x in stmt.targets) == sorted(targets) and isinstance(stmt.value, ast.Name) and stmt.value.id == "missing"
+    return [] if ok else [f"leave_frame must reset exactly {targets} to missing: {txt!r}"]
+
+
+def replay_enter_leave(w):
+    """native: the real generator on a frame with a concrete load table, plus the scoping family"""
+    import jinja2
+    from jinja2.compiler import CodeGenerator, Frame
+    from io import StringIO
+    env = jinja2.Environment()
+    problems = []
+    for actions in ([RESOLVE, ALIAS, UNDEF, PARAM, UNDEF], [ALIAS], [UNDEF], []):
+        gen = CodeGenerator(env, "t", "t.html", stream=StringIO())
+        fr = Frame(N.EvalContext(env, "t"))
+        loads = {}
+        for i, a in enumerate(actions):
+            loads[f"l_1_v{i}"] = (a, {RESOLVE: f"v{i}", ALIAS: f"l_0_v{i}"}.get(a))
+        fr.symbols.loads = loads
+        gen.enter_frame(fr)
+        entered = gen.stream.getvalue()
+        lines = [x.strip() for x in entered.splitlines() if x.strip()]
+        want = [f"l_1_v{i} = resolve('v{i}')" for i, a in enumerate(actions) if a == RESOLVE]
+        want_alias = [f"l_1_v{i} = l_0_v{i}" for i, a in enumerate(actions) if a == ALIAS]
+        und = [f"l_1_v{i}" for i, a in enumerate(actions) if a == UNDEF]
+        expect = sorted(want + want_alias + ([" = ".join(und) + " = missing"] if und else []))
+        if sorted(lines) != expect:
+            problems.append(f"enter_frame with loads {loads}: emitted {lines}, expected {expect}")
+        gen2 = CodeGenerator(env, "t", "t.html", stream=StringIO())
+        gen2.leave_frame(fr)
+        lv = [x.strip() for x in gen2.stream.getvalue().splitlines() if x.strip()]
+        expect = [" = ".join(loads) + " = missing"] if loads else []
+        if lv != expect:
+            problems.append(f"leave_frame with loads {list(loads)}: emitted {lv}, expected {expect}")
+        gen3 = CodeGenerator(env, "t", "t.html", stream=StringIO())
+        gen3.leave_frame(fr, with_python_scope=True)
+        if gen3.stream.getvalue().strip():
+            problems.append("leave_frame(with_python_scope=True) emits code")
+    bad, det = native_scoping(count=120)
+    if bad:
+        problems.append(det)
+    return (bool(problems), "; ".join(problems[:3]) or "enter_frame / leave_frame emit the documented bindings")
+
+
+# ------------------------------------------------------------------ C03.namespace
+
+class NamespaceVC(VC):
+    """utils.Namespace keeps its attributes in one private dict: __setitem__(n, v) stores exactly (n, v) there,
+    __getattribute__(n) reads exactly that entry (AttributeError when absent): set-then-get is the identity, other
+    attributes are untouched.  (The private field is name-mangled by Python; the contract runs on the source name.)"""
+    prop = "C03"
+
+    def __init__(self, method):
+        self.method = method
+        self.target = f"jinja2.utils:Namespace.{method}"
+        super().__init__("C03", f"C03.namespace.{method}")
+
+    def configure(self, I):
+        I.specs[("fn", id(object.__getattribute__))] = A.abstract_fn("object.__getattribute__", returns="obj")
+
+    def setup(self, I, st):
+        self.attrs = A.adict(st, "attrs", "str", "obj")
+        h = st.get(self.attrs)
+        self.dom, self.val = h.dom, h.val
+        self.ns = st.alloc(HObj(U.Namespace, fields={"__attrs": self.attrs}, path="ns"), initial=True)
+        st.get(self.ns).plain_setattr = True
+        self.n, self.v = sym("name", "str"), sym("value", "obj")
+        return ([self.ns, self.n, self.v] if self.method == "__setitem__" else [self.ns, self.n]), {}
+
+    def p_set(self, pre, out):
+        if self.method != "__setitem__":
+            return None
+        if out.raised or out.value is not None:
+            return False
+        h = out.st.get(self.attrs)
+        if out.st.get(self.ns).fields.get("__attrs") != self.attrs or set(out.st.get(self.ns).fields) != {"__attrs"}:
+            return False
+        return z3.And(h.dom == z3.Store(self.dom, self.n.t, True), z3.Select(h.val, self.n.t) == self.v.t, eq_except_obj(h.val, self.val, h.dom, self.n.t))
+
+    def p_get(self, pre, out):
+        if self.method != "__getattribute__":
+            return None
+        reserved = z3.Or(self.n.t == z3.StringVal("_Namespace__attrs"), self.n.t == z3.StringVal("__class__"))
+        delegated = A.calls(out, "object.__getattribute__")
+        if delegated:
+            return z3.And(reserved, out.returned and out.value is delegated[0].result)
+        present = z3.Select(self.dom, self.n.t)
+        if out.raised:
+            return z3.And(z3.Not(reserved), z3.Not(present), out.value.cls is AttributeError)
+        return z3.And(z3.Not(reserved), present, to_term(out.value, "obj") == z3.Select(self.val, self.n.t))
+
+    def p_pure(self, pre, out):
+        if self.method != "__getattribute__":
+            return None
+        h = out.st.get(self.attrs)
+        return z3.And(h.dom == self.dom, h.val == self.val, not any(i in (self.ns.id, self.attrs.id) for (i, _f) in out.st.written))
+
+    posts = [("stores_exactly_the_item", p_set), ("reads_exactly_the_item", p_get), ("read_is_pure", p_pure)]
+
+    def concretize(self, model, pre, out):
+        return {"name": model_value(model, self.n.t)}
+
+    def replay(self, w):
+        return replay_namespace(w)
+
+
+def eq_except_obj(a, b, dom, n):
+    k = z3.Const(fresh_name("ek"), S_)
+    return z3.ForAll([k], z3.Implies(z3.And(k != n, z3.Select(dom, k)), z3.Select(a, k) == z3.Select(b, k)))
+
+
+def replay_namespace(w):
+    import jinja2
+    problems = []
+    name = (w or {}).get("name") or "found"
+    for nm in {name, "found", "x", "_p", "items"}:
+        if not isinstance(nm, str) or nm in ("_Namespace__attrs", "__class__"):
+            continue
+        ns = U.Namespace({"other": 1}, keep=2)
+        ns[nm] = 42
+        try:
+            got = getattr(ns, nm)
+        except Exception as ex:
+            got = f"{type(ex).__name__}"
+        if got != 42:
+            problems.append(f"ns[{nm!r}] = 42; ns.{nm} -> {got!r}")
+        if ns._Namespace__attrs != {"other": 1, "keep": 2, nm: 42}:
+            problems.append(f"after ns[{nm!r}] = 42 the attributes are {ns._Namespace__attrs}")
+        try:
+            getattr(ns, "absent_" + nm)
+            problems.append("reading an absent attribute does not raise AttributeError")
+        except AttributeError:
+            pass
+    if U.Namespace().__class__ is not U.Namespace or U.Namespace(a=1)._Namespace__attrs != {"a": 1} or U.Namespace({"a": 1}, b=2)._Namespace__attrs != {"a": 1, "b": 2}:
+        problems.append("Namespace(...) does not initialise its attributes from dict(*args, **kwargs)")
+    env = jinja2.Environment()
+    cases = [("{% set ns = namespace(found=false) %}{% for i in [1, 2] %}{% set ns.found = i %}{% endfor %}{{ ns.found }}", {}, "2"),
+             ("{% set ns = namespace(a=1) %}{% set ns.a, ns.b = 2, 3 %}{{ ns.a }}{{ ns.b }}", {}, "23"),
+             ("{% set ns = namespace() %}{% set ns.a = 1 %}{% set ns2 = namespace() %}{{ ns2.a is defined }}", {}, "False")]
+    for src, data, want in cases:
+        got = env.from_string(src).render(data)
+        if got != want:
+            problems.append(f"{src!r}: {got!r}, expected {want!r}")
+    for src, data in [("{% set d.a = 1 %}", {"d": {}}), ("{% set x = 1 %}{% set x.a = 1 %}", {}), ("{% set u.a = 1 %}", {}),
+                      ("{% set ns = namespace() %}{% set ns.a, d.b = 1, 2 %}", {"d": {}})]:
+        data = dict(data)
+        try:
+            env.from_string(src).render(data)
+            problems.append(f"{src!r}: attribute assignment on a non-namespace object did not raise")
+        except jinja2.exceptions.TemplateRuntimeError:
+            pass
+        except Exception as ex:
+            problems.append(f"{src!r}: {type(ex).__name__} instead of TemplateRuntimeError")
+        if data.get("d"):
+            problems.append(f"{src!r}: the non-namespace object was modified: {data['d']}")
+    return (bool(problems), "; ".join(problems[:3]) or "Namespace items and attributes are inverse; non-namespace targets are rejected before any store")
+
+
+def nsref_guard_task(n_refs):
+    """visit_Assign with a target that contains n namespace references (names symbolic, possibly equal): every distinct
+    referenced name is guarded by `if not isinstance(<ref>, Namespace): raise TemplateRuntimeError(...)` BEFORE the
+    assignment statement; visit_NSRef emits the item store `<ref>[attr]`."""
+    from pyvc.emitcheck import EmitTask
+    from pyvc import emit
+
+    def configure(I):
+        record_frames(I)
+
+        def find_all(I_, st, args, kwargs, node):
+            if args[1] is not N.NSRef:
+                raise Unsupported("find_all of another class", node)
+            refs = tuple(emit.make_node(st, N.NSRef, f"nsref{i}") for i in range(n_refs))
+            return [(st, refs)]
+
+        I.specs["Node.find_all"] = find_all
+
+    def pred(sc, tree, ph, txt):
+        if sc.outcome == "raise":
+            return [f"raises {sc.value!r}"]
+        st = sc.st
+        guards = []
+        body = list(tree.body)
+        k = 0
+        while k < len(body) and isinstance(body[k], ast.If):
+            g = body[k]
+            t = g.test
+            ok = (isinstance(t, ast.UnaryOp) and isinstance(t.op, ast.Not) and isinstance(t.operand, ast.Call) and emit.call_name(t.operand) == "isinstance"
+                  and len(t.operand.args) == 2 and isinstance(t.operand.args[1], ast.Name) and t.operand.args[1].id == "Namespace"
+                  and len(g.body) == 1 and isinstance(g.body[0], ast.Raise) and isinstance(g.body[0].exc, ast.Call)
+                  and emit.call_name(g.body[0].exc) == "TemplateRuntimeError" and not g.orelse)
+            if not ok:
+                return [f"unexpected guard shape: {ast.unparse(g)[:120]}"]
+            guards.append(ident_of(ph, t.operand.args[0]))
+            k += 1
+        rest = body[k:]
+        fails = []
+        if len(rest) != 2 or not isinstance(rest[0], ast.Assign):
+            fails.append(f"after the guards exactly the assignment (and the tracking marker) must follow: {[ast.unparse(x)[:60] for x in rest]}")
+        if any(isinstance(n, ast.If) for x in rest for n in ast.walk(x)):
+            fails.append("a guard is emitted after the assignment")
+        # which names were looked up for guards
+        refs = [e for e in st.trace if e.kind == "call" and e.name == "symbols.ref"]
+        names = [st.get(emit_ref).fields.get("name") for emit_ref in [r for r in (sc_ns_nodes(st, n_refs))]]
+        for i, nm in enumerate(names):
+            mine = [e.result.t for e in refs if e.args[0] is nm]
+            if not any(g is not None and any(g.eq(m) for m in mine) for g in guards):
+                # allowed only when an earlier reference has the same name on this path
+                dup = any(sc.holds(names[j].t == nm.t) for j in range(i))
+                if not dup:
+                    fails.append(f"namespace reference #{i} is assigned without an isinstance(..., Namespace) guard on its name")
+        if len(guards) > len(names):
+            fails.append("more guards than namespace references")
+        return fails
+
+    t = EmitTask("C03", f"C03.namespace.guard[{n_refs} refs]", "jinja2.compiler:CodeGenerator.visit_Assign", N.Assign, pred, mode="stmts",
+                 buffers=(None,), replay_fn=replay_namespace, configure=configure, min_paths=1)
+    t.bound_text = "assignment targets with at most 2 namespace references (names / attributes symbolic)"
+    return t
+
+
+def sc_ns_nodes(st, n):
+    out = []
+    for i, h in st.heap.items():
+        if isinstance(h, HObj) and h.cls is N.NSRef and (h.path or "").startswith("nsref"):
+            out.append((h.path, Ref(i)))
+    return [r for _p, r in sorted(out)][:n]
+
+
+def nsref_emit_pred(sc, tree, ph, txt):
+    """visit_NSRef: `<ref of the name>[<attr!r>]` - an item access on the variable, i.e. Namespace.__setitem__ in store position"""
+    if sc.outcome == "raise":
+        return [f"raises {sc.value!r}"]
+    if len(tree.body) != 1 or not isinstance(tree.body[0], ast.Expr) or not isinstance(tree.body[0].value, ast.Subscript):
+        return [f"a namespace reference is not emitted as an item access: {txt!r}"]
+    sub = tree.body[0].value
+    nf = sc.st.get(sc.node).fields
+    refs = [e for e in sc.st.trace if e.kind == "call" and e.name == "symbols.ref" and e.args[0] is nf.get("name")]
+    t = ident_of(ph, sub.value)
+    fails = []
+    if t is None or not any(t.eq(e.result.t) for e in refs):
+        fails.append("the subscripted object is not frame.symbols.ref(node.name)")
+    key = f"'{sub.slice.value}'" if isinstance(sub.slice, ast.Constant) else None
+    if key not in ph or ph[key][0] != "repr" or not ph[key][1].eq(nf.get("attr").t):
+        fails.append("the item key is not the quoted attribute name")
+    return fails
+
+
+def namespace_tasks():
+    from pyvc.emitcheck import EmitTask
+    return [NamespaceVC("__setitem__"), NamespaceVC("__getattribute__"), nsref_guard_task(0), nsref_guard_task(1), nsref_guard_task(2),
+            EmitTask("C03", "C03.namespace.visit_NSRef", "jinja2.compiler:CodeGenerator.visit_NSRef", N.NSRef, nsref_emit_pred, mode="stmts", buffers=(None,),
+                     replay_fn=replay_namespace, min_paths=1)]
+
+
 # ------------------------------------------------------------------ bounded differential stand-in (end to end)
 
 KNOWN_CLASSES = ("dead-read-changes-output", "for-else-loopcontrol")
@@ -961,7 +2239,7 @@ class Bounded(FnTask):
 def bounded_scoping(part, parts):
     def run(task, tier, seed):
         from standins import c03_scoping as S
-        count = (160 if tier == "quick" else 2500)
+        count = (400 if tier == "quick" else 4000)
         t0 = time.time()
         cases = 0
         fails = {}
@@ -1014,11 +2292,277 @@ N_BOUNDED = 4
 BOUNDED_TASKS = [Bounded("C03", f"C03.bounded.scoping[{i}]", bounded_scoping(i, N_BOUNDED), "bounded", replay_bounded) for i in range(N_BOUNDED)]
 
 
+# ------------------------------------------------------------------ branch_update: order independence of the set iteration
+
+class BranchUpdateCommutes(Task):
+    """`for name in stores:` iterates a SET of strings (order depends on the hash seed).  The real loop body is executed
+    from an arbitrary merged table for two distinct names in both orders: the final tables are equal, so the result of
+    branch_update does not depend on the iteration order (needs INV1: distinct names have distinct targets)."""
+    kind = "vc"
+
+    def __init__(self, with_parent):
+        self.prop, self.with_parent = "C03", with_parent
+        self.name = f"C03.symbols.branch_update.order_independent[{'child' if with_parent else 'root'}]"
+
+    def loop_node(self):
+        from pyvc import extract
+        fn = extract.resolve("jinja2.idtracking:Symbols.branch_update")
+        node, module = extract.function_ast(fn)
+        loops = [n for n in ast.walk(node) if isinstance(n, ast.For) and isinstance(n.iter, ast.Name) and isinstance(n.target, ast.Name)
+                 and n.iter.id == "stores"]
+        if len(loops) != 1:
+            raise Unsupported("branch_update has no unique `for <name> in stores` loop")
+        return loops[0], node, module
+
+    def run_order(self, I, st, tab, fnode, module, loop, names):
+        from pyvc.interp import Frame
+        results = [(st, None)]
+        for nm in names:
+            nxt = []
+            for s, _ in results:
+                fid = s.new_frame({"self": tab.ref, loop.target.id: nm, "stores": None})
+                fr = Frame(fid, [], module, "Symbols.branch_update", set(), fn_node=fnode)
+                for s2, c in I.exec_block(loop.body, s, fr):
+                    if c.kind in ("ok", "continue"):
+                        nxt.append((s2, None))
+                    else:
+                        nxt.append((s2, c))
+            results = nxt
+        return results
+
+    def run(self, tier, seed):
+        from pyvc.engine import Interp
+        t0 = time.time()
+        try:
+            loop, fnode, module = self.loop_node()
+            I = Interp()
+            install_loads(I)
+            I.inline.update({"jinja2.idtracking:Symbols._define_ref", "jinja2.idtracking:Symbols.ref"})
+            st = State()
+            tab = Tab(st, self.with_parent)
+            install_parent(I, lambda: tab)
+            n1, n2 = sym("name1", "str"), sym("name2", "str")
+            tab.assume_inv(st, n1.t, n2.t)
+            # both names come out of `stores` after the merge: stored here (INV4 gives them a ref here)
+            st.assume(n1.t != n2.t, z3.Select(tab.sdom, n1.t), z3.Select(tab.sdom, n2.t))
+            a = self.run_order(I, st.fork(), tab, fnode, module, loop, [n1, n2])
+            b = self.run_order(I, st.fork(), tab, fnode, module, loop, [n2, n1])
+        except Unsupported as ex:
+            return [Res(self.name + ".engine", "unknown", "pyvc", time.time() - t0, f"unsupported: {ex}", self.kind)]
+        res = []
+        k = 0
+        for sa, ca in a:
+            for sb, cb in b:
+                pc = list(sa.pc) + [c for c in sb.pc if not any(c.eq(d) for d in sa.pc)]
+                name = f"{self.name}#p{k}"
+                k += 1
+                if ca is not None or cb is not None:
+                    # an iteration failed (the `assert target is not None`): must be infeasible under INV
+                    r = check_sat(pc, 10000, seed)
+                    res.append(Res(name, "discharged" if r.status == "unsat" else ("refuted" if r.status == "sat" else "unknown"), r.backend, r.seconds,
+                                   "" if r.status == "unsat" else f"the loop body can fail: {ca or cb}", self.kind, {"with_parent": self.with_parent} if r.status == "sat" else None))
+                    continue
+                ta, tb = tab.post(sa), tab.post(sb)
+                same = z3.And(ta[0] == tb[0], ta[1] == tb[1], ta[2] == tb[2], loads_equal(ta[3:], tb[3:]), parent_untouched(tab, sa), parent_untouched(tab, sb))
+                r = check_sat(pc + [z3.Not(same)], 20000, seed)
+                if r.status == "unsat":
+                    res.append(Res(name, "discharged", r.backend, r.seconds, "", self.kind))
+                elif r.status == "sat":
+                    res.append(Res(name, "refuted", r.backend, r.seconds, "the two iteration orders end in different tables", self.kind,
+                                   {"with_parent": self.with_parent, "name1": model_value(r.model, n1.t), "name2": model_value(r.model, n2.t)}))
+                else:
+                    res.append(Res(name, "unknown", r.backend, r.seconds, f"solver: {r.reason}", self.kind))
+        if not res:
+            res.append(Res(self.name + ".paths", "error", "pyvc", 0, "no paths", self.kind))
+        return res
+
+    def replay(self, w):
+        """native: branch_update of the real class under both iteration orders of a two-element store set"""
+        problems = []
+        for parent_ops in ([], [("store", "a")], [("store", "a"), ("store", "b")]) if w.get("with_parent", True) else ([],):
+            outs = []
+            for order in (("a", "b"), ("b", "a")):
+                class OrderedSet(set):
+                    def __iter__(self, order=order):
+                        return iter([x for x in order if set.__contains__(self, x)])
+                real, _ref = build_pair(([(0, parent_ops)] if w.get("with_parent", True) else []) + [(None if w.get("with_parent", True) else 0, [])])
+                b1, b2 = real.copy(), real.copy()
+                for x in order:
+                    b1.store(x)
+                b2.load("a")
+                orig = set
+                import builtins
+                # the local `stores` set of branch_update is built with set(): run with a set type whose iteration order is forced
+                IDT.__dict__["set"] = OrderedSet
+                try:
+                    real.branch_update([b1, b2, real.copy()])
+                finally:
+                    del IDT.__dict__["set"]
+                outs.append(real_state(real))
+            if outs[0] != outs[1]:
+                problems.append(f"parent {parent_ops}: order a,b -> {outs[0]}; order b,a -> {outs[1]}")
+        return (bool(problems), "; ".join(problems[:2]) or "both iteration orders give the same tables")
+
+
+# ------------------------------------------------------------------ branch_update / dump_* : bounded exhaustive enumeration
+
+def bounded_tables(task, tier, seed):
+    """Real Symbols.branch_update / dump_stores / dump_param_targets on every small configuration vs the rule of the property
+    statement: after an if, a name stored in some branch and not before gets alias(outer) when an enclosing table knows it,
+    else resolve(name); names stored before keep their load; everything the branches defined is visible afterwards."""
+    names = ["a", "b"]
+    ops_all = [(op, n) for op in ("store", "load", "declare_parameter") for n in names]
+    ops_branch = [(op, n) for op in ("store", "load") for n in names]
+    one = [()] + [(o,) for o in ops_all]
+    b_seqs = [()] + [(o,) for o in ops_branch] + [(o1, o2) for o1 in ops_branch for o2 in ops_branch]
+    b_short = [()] + [(o,) for o in ops_branch]
+    if tier != "quick":
+        one = one + [(o1, o2) for o1 in ops_all for o2 in ops_all]
+    chains = [[]] + [[(0, ps)] for ps in one] + [[(0, (("store", "a"),)), (None, ps)] for ps in one[:4]]
+    cases = 0
+    fails = {}
+    t0 = time.time()
+
+    def note(ob, key, detail, wit):
+        fails.setdefault((ob, key), (detail, wit))
+
+    for chain in chains:
+        for self_ops in one:
+            spec = chain + [(None if chain else 0, self_ops)]
+            # dump_stores / dump_param_targets on this chain
+            real, ref = build_pair(spec)
+            cases += 1
+            got, want = real.dump_stores(), ref.dump_stores()
+            if got != want or list(got) != sorted_by_chain(real):
+                note("dump_stores", "value", f"tables {spec}: dump_stores() = {got}, every stored name of the chain with its nearest ref: {want}", {"spec": spec, "method": "dump_stores"})
+            got, want = real.dump_param_targets(), ref.dump_param_targets()
+            if got != want:
+                note("dump_param_targets", "value", f"tables {spec}: dump_param_targets() = {got}, parameter targets of the frame: {want}", {"spec": spec, "method": "dump_param_targets"})
+            for b1 in b_seqs:
+                for b2 in b_short:
+                    for b3 in (b_short if tier != "quick" else b_short[:3]):
+                        cases += 1
+                        bad = branch_update_case(spec, (b1, b2, b3))
+                        if bad:
+                            note("branch_update", bad[0], bad[1], {"spec": spec, "branches": [b1, b2, b3], "method": "branch_update"})
+    task.bound_text = (f"names {names}; tables built by <= {1 if tier == 'quick' else 2} operations (store/load/declare_parameter) on an ancestor chain of depth <= 2; "
+                       f"three branches = copies with <= 2 / <= 1 / <= 1 further store/load operations")
+    task.stats = {"cases": cases, "seconds": round(time.time() - t0, 1)}
+    rs = [Res(f"C03.symbols.{m}.bounded", "bounded-ok", "native", 0, f"{cases} configurations agree with the rule", "bounded")
+          for m in ("branch_update", "dump_stores", "dump_param_targets")]
+    for (ob, key), (detail, wit) in sorted(fails.items()):
+        wit = dict(wit, key=key)
+        rs.append(Res(f"C03.symbols.{ob}.bounded", "refuted", "native", 0, detail[:900], "bounded", wit))
+    return rs
+
+
+def sorted_by_chain(real):
+    """documented iteration order of dump_stores: sorted within a table, innermost table first (deterministic output)"""
+    out = []
+    t = real
+    while t is not None:
+        for n in sorted(t.stores):
+            if n not in out:
+                out.append(n)
+        t = t.parent
+    return out
+
+
+def branch_update_case(spec, branch_ops):
+    real, ref = build_pair(spec)
+    before_real = real_state(real)
+    stored_before = set(real.stores)
+    loads_before = {n: real.find_load(real.find_ref(n)) for n in stored_before}
+    rb, fb = [], []
+    for ops in branch_ops:
+        r, f = real.copy(), ref.copy()
+        for op, n in ops:
+            getattr(r, op)(n)
+            getattr(f, op)(n)
+        rb.append(r)
+        fb.append(f)
+    parent_before = real_state(real.parent) if real.parent is not None else None
+    try:
+        real.branch_update(rb)
+    except Exception as ex:
+        return ("raises", f"tables {spec}, branches {branch_ops}: branch_update raised {type(ex).__name__}: {ex}")
+    ref.branch_update(fb)
+    ctx = f"tables {spec} (state {before_real}), branches {branch_ops}"
+    # the rule of the property statement, checked directly on the real result
+    new = set().union(*[set(b.stores) for b in rb]) - stored_before
+    for n in sorted(new):
+        target = real.find_ref(n)
+        if target is None:
+            return ("rule", f"{ctx}: {n!r} was stored in a branch but has no ref afterwards")
+        outer = real.parent.find_ref(n) if real.parent is not None else None
+        want = (ALIAS, outer) if outer is not None else (RESOLVE, n)
+        if real.find_load(target) != want:
+            return ("rule", f"{ctx}: {n!r} stored in a branch and not before: load of {target} is {real.find_load(target)}, rule gives {want}")
+        if n not in real.stores:
+            return ("rule", f"{ctx}: {n!r} stored in a branch is not recorded as stored afterwards")
+    for n in sorted(stored_before):
+        if real.find_load(real.find_ref(n)) != loads_before[n]:
+            return ("rule", f"{ctx}: {n!r} was stored before the if: its load changed from {loads_before[n]} to {real.find_load(real.find_ref(n))}")
+    if real_state(real) != ref.state():
+        return ("state", f"{ctx}: real state {real_state(real)}, reference {ref.state()}")
+    if real.parent is not None and real_state(real.parent) != parent_before:
+        return ("frame", f"{ctx}: the parent table was modified")
+    for b, f in zip(rb, fb):
+        if real_state(b) != f.state():
+            return ("frame", f"{ctx}: a branch table was modified")
+    return None
+
+
+def replay_tables(w):
+    spec = [(lv, [tuple(o) for o in ops]) for lv, ops in w.get("spec", [])]
+    m = w.get("method")
+    if m == "branch_update":
+        bad = branch_update_case(spec, [[tuple(o) for o in b] for b in w["branches"]])
+        return (bool(bad), bad[1] if bad else "agrees with the rule")
+    real, ref = build_pair(spec)
+    if m == "dump_stores":
+        got, want = real.dump_stores(), ref.dump_stores()
+        return (got != want or list(got) != sorted_by_chain(real), f"dump_stores() = {got}; rule: {want}")
+    if m == "dump_param_targets":
+        got, want = real.dump_param_targets(), ref.dump_param_targets()
+        return (got != want, f"dump_param_targets() = {got}; rule: {want}")
+    return (None, "no oracle")
+
+
 SYMBOL_TASKS = (
     [cls(wp) for cls in (Store, FindRef, Ref_, FindLoad, DeclareParameter, Load, Copy) for wp in (True, False)]
     + [DefineRef(wp, shape) for wp in (True, False) for shape in ("pair", "nopar", "none")]
     + [Init(wp, g) for wp in (True, False) for g in (True, False)]
     + [NoAlias()]
 )
-TASKS = SYMBOL_TASKS + BOUNDED_TASKS
-META = {"level": "other", "explanation": "", "assumptions": [], "trusted_base": []}
+FRAME_TASKS = [FrameInit(True), FrameInit(False), FrameInner(False), FrameInner(True), FrameCopy("copy"), FrameCopy("soft")]
+TABLE_TASKS = [BranchUpdateCommutes(True), BranchUpdateCommutes(False), Bounded("C03", "C03.symbols.tables.bounded", bounded_tables, "bounded", replay_tables)]
+TASKS = SYMBOL_TASKS + TABLE_TASKS + FRAME_TASKS + SCOPE_TASKS + tracking_tasks() + [FnTask("C03", "C03.enter_leave_frame", enter_leave_frame, "emission", replay_enter_leave)] + namespace_tasks() + BOUNDED_TASKS
+META = {
+    "level": "other",
+    "explanation": (
+        "Proof of mechanism, not of the end-to-end statement. (1) Every method of idtracking.Symbols is symbolically executed from its source over "
+        "unbounded array-encoded tables and an abstract ancestor chain (induction through the contracts of find_ref/find_load) against the reference-table "
+        "semantics, with the class invariant (refs defined here are l_<level>_<name>, have a load in the chain, stored names have a ref) preserved; the "
+        "identifier built by the real _define_ref is proved injective in (level, name), of the documented shape and never a name generated code uses itself. "
+        "(2) branch_update: the real loop body commutes for distinct names (order independence of the set iteration), and the method, dump_stores and "
+        "dump_param_targets agree with the rule of the property statement on every small table configuration (bounded, exhaustive). (3) compiler.Frame "
+        "__init__/copy/inner/soft: inner() = empty child table one level deeper, soft() = unshared copy of the same level, inner(isolated) = fresh chain. "
+        "(4) Emission contracts on the real visit_For/With/FilterBlock/AssignBlock/Scope/Macro/CallBlock/If over all symbolic paths: which child field is "
+        "compiled in which frame, bracketed by enter_frame/leave_frame, joined with the fields the real FrameSymbolVisitor/RootVisitor analyse into which "
+        "table (marker nodes). (5) Assignment tracking (pop_assign_tracking on every small tracked set x frame kind, visit_Name, visit_For discard, "
+        "visit_Assign/AssignBlock bracket, macro export), enter_frame/leave_frame on every small load table, utils.Namespace and the NSRef guard. "
+        "(6) Bounded differential stand-in: generated statement trees rendered by the real engine vs. an independent reference interpreter of the documented "
+        "scoping rules and vs. their alpha-renamings (Unicode, Python keywords, compiler-internal names). The lemma 'a template is compiled frame by frame "
+        "exactly as these mechanisms say, hence renders as the scoping rules define' is argued, not derived."),
+    "assumptions": [
+        "A1 integers are mathematical; str(int) of a non-negative int is a non-empty digit string and injective (dependency spec)",
+        "the ancestors of a table satisfy the class invariant and have smaller levels (induction hypothesis; established by Symbols.__init__ / Frame.inner)",
+        "values of kind str / int are not None (engine embedding fact)",
+        "Python name mangling of Namespace.__attrs (the contract runs on the source name; checked natively)",
+        "emission runs: child visits are holes (modular); Symbols / Frame.inner / enter_frame are used through the specs proved here",
+        "Macro / CallBlock emission runs use a concrete parameter list of length 1; namespace guard runs at most 2 references (stated bounds)",
+    ],
+    "trusted_base": ["pyvc symbolic executor and emission engine", "z3 5.1 / cvc5 1.0.3 (string lemma by cvc5)", "dependency specs: dict / set / str(int) / object.__new__ / sorted / map",
+                     "standins/c03_scoping.py reference interpreter (written from docs/templates.rst)"],
+}
